@@ -1,6 +1,6 @@
 """C16 - locale fallback picks the first locale that can answer, in every API shape.
 
-Case line (area `fb`):  cfg:<s|a|p>;b:<locale|_>:<brk>:<id>=<state>,...;...;<op>;...
+Case line (area `fb`):  cfg:<s|a|p|q>;b:<locale|_>:<brk>:<id>=<state>,...;...;<op>;...
 (see lean/FluentModel/Drv/FbDrv.lean).  The predicate below is written from the property text
 (first locale that has the message with a value answers; error list order), not from the Rust loops
 and not from the Lean model.
@@ -250,7 +250,7 @@ class C16(Base):
     def gen_case(self, rng, p_noloc=0.0):
         nb = rng.choice([0, 1, 2, 2, 3, 3, 3, 4, 4])
         ids = IDS[:rng.choice([1, 2, 2, 3, 5])]
-        segs = ["cfg:" + rng.choice("sssaap")]
+        segs = ["cfg:" + rng.choice("sssaapq")]
         for _ in range(nb):
             segs.append(self.gen_bundle(rng, ids, p_noloc))
         for _ in range(rng.randint(1, 8)):
@@ -276,7 +276,7 @@ class C16(Base):
         if tier == "thorough":
             ops = ("v:k0;v:k1;vv:k0,k1;vv:k1,k0,k0;mm:k0,k1;vs:k0;vvs:k0,k1;mms:k1,k0;clr;vv:k1")
             locs = ["pl", "en-US", "de"]
-            for mode in "sap":
+            for mode in "sapq":
                 for brks in itertools.product([0, 1], repeat=3):
                     for sts in itertools.product("mpnx", repeat=6):
                         segs = ["cfg:" + mode]
@@ -329,6 +329,8 @@ class C16(Base):
             return bad
         if impl_obs == "bad-case":
             return None
+        if "SHADOW-DISAGREE" in impl_obs:
+            return "two identical requests in flight at the same time got different answers: " + impl_obs[impl_obs.index("SHADOW-DISAGREE") - 40:][:160]
         obs = impl_obs.split(";") if impl_obs else []
         if len(obs) != len(ops):
             return "observation count %d != op count %d" % (len(obs), len(ops))
